@@ -468,14 +468,13 @@ fn longs_and_visible_aliases(p: &clap::Command) -> Vec<CompletionCandidate> {
     debug!("longs: name={}", p.get_name());
 
     p.get_arguments()
-        .filter_map(|a| {
-            a.get_long_and_visible_aliases().map(|longs| {
-                longs
-                    .into_iter()
-                    .map(|s| populate_arg_candidate(CompletionCandidate::new(format!("--{s}")), a))
-            })
+        .flat_map(|a| {
+            // Not `get_long_and_visible_aliases`: visible aliases count without a primary long
+            a.get_long()
+                .into_iter()
+                .chain(a.get_visible_aliases().unwrap_or_default())
+                .map(|s| populate_arg_candidate(CompletionCandidate::new(format!("--{s}")), a))
         })
-        .flatten()
         .collect()
 }
 
@@ -501,18 +500,19 @@ fn shorts_and_visible_aliases(p: &clap::Command) -> Vec<CompletionCandidate> {
     debug!("shorts: name={}", p.get_name());
 
     p.get_arguments()
-        .filter_map(|a| {
-            a.get_short_and_visible_aliases().map(|shorts| {
-                shorts.into_iter().map(|s| {
+        .flat_map(|a| {
+            // Not `get_short_and_visible_aliases`: visible aliases count without a primary short
+            a.get_short()
+                .into_iter()
+                .chain(a.get_visible_short_aliases().unwrap_or_default())
+                .map(|s| {
                     populate_arg_candidate(CompletionCandidate::new(s.to_string()), a).help(
                         a.get_help()
                             .cloned()
                             .or_else(|| a.get_long().map(|long| format!("--{long}").into())),
                     )
                 })
-            })
         })
-        .flatten()
         .collect()
 }
 
